@@ -1,6 +1,7 @@
 /- C18 — the design workflow follows its declared transitions and selects from the grid. -/
 import FormakVerif.Model.Workflow
 import FormakVerif.Generated.Workflow
+import FormakVerif.Proofs.Workflow
 
 namespace FormakVerif.C18
 open FormakVerif
@@ -75,6 +76,20 @@ theorem search_sound (g : Graph) (hnd : ∀ n, ((g.succ n).map (·.1)).Nodup) (s
   apply bfs_sound g hnd start target fuel [(start, [])] p _ h
   intro e he
   simp at he; subst he; rfl
+
+/-- **Path search returns a shortest list of transition names (any graph, any fuel)**: no valid
+transition sequence from the start state to the requested state is shorter than the one returned. -/
+theorem search_is_shortest (g : Graph) (start target fuel : Nat) (p : List String)
+    (h : search g start target fuel = some p) :
+    ∀ q, follow g start q = some target → p.length ≤ q.length :=
+  search_shortest g start target fuel p h
+
+/-- a target that no transition sequence reaches is never "found" (the search reports failure) -/
+theorem unreachable_fails (g : Graph) (hnd : ∀ n, ((g.succ n).map (·.1)).Nodup) (start target fuel : Nat)
+    (hun : ∀ q, follow g start q ≠ some target) : search g start target fuel = none := by
+  cases h : search g start target fuel with
+  | none => rfl
+  | some p => exact absurd (search_sound g hnd start target fuel p h) (hun p)
 
 /-- the selected hyper-parameters are a member of the grid, and no grid point scores lower -/
 theorem argmin_mem {α : Type} (score : α → Rat) (l : List α) (x : α) (h : argmin score l = some x) : x ∈ l := by
